@@ -89,6 +89,7 @@ pub struct WorkerSummary {
     pub samples: Vec<Value>,
     pub violations: Vec<FoundViolation>,
     pub violation_count: u64,
+    pub violation_classes: BTreeMap<String, u64>,
     pub known_counts: BTreeMap<String, u64>,
     pub harness_errors: Vec<String>,
 }
@@ -182,6 +183,7 @@ pub fn worker_main(args: &[String]) {
                 continue;
             }
             sum.violation_count += 1;
+            *sum.violation_classes.entry(format!("{} ({})", v.class, report.profile)).or_default() += 1;
             let key = format!("{}:{}", v.property, v.class);
             if minimised_classes.contains(&key) || sum.violations.len() >= 6 {
                 continue;
@@ -256,6 +258,9 @@ fn merge(a: &mut WorkerSummary, b: WorkerSummary) {
     }
     a.violations.extend(b.violations);
     a.violation_count += b.violation_count;
+    for (k, v) in b.violation_classes {
+        *a.violation_classes.entry(k).or_default() += v;
+    }
     a.harness_errors.extend(b.harness_errors);
 }
 
@@ -382,6 +387,9 @@ pub fn check_main(cfg: CheckCfg) -> i32 {
             fv.replay.clone().unwrap_or_default()
         ));
         eprintln!("  [{}] {} ({}): {}", fv.violation.property, fv.violation.class, fv.profile, truncate(&fv.violation.detail, 600));
+    }
+    for (c, n) in &total.violation_classes {
+        eprintln!("  violation class {c}: {n} run(s)");
     }
     for (id, n) in &total.known_counts {
         let what = known.findings.iter().find(|f| f.id == *id).map(|f| f.what.clone()).unwrap_or_default();
